@@ -357,6 +357,20 @@ func storeGen(r *rand.Rand, id int, flavour string) *sScript {
 				old := g.ops[r.Intn(len(g.ops))]
 				g.add("redelivery", old)
 			} else {
+				if id%12 == 7 && g.kinds["node-points-large"]+g.kinds["edge-points-large"] == 0 {
+					// one script in twelve: a batch of 130 points of distinct identity (still one batch: one reply, one
+					// rebroadcast, all or nothing), for a node or for an edge
+					big := make([]sPoint, 130)
+					for i := range big {
+						big[i] = sPoint{Type: "big", Key: fmt.Sprint(i), Time: g.tick(), VBits: math.Float64bits(float64(i)), Text: "x"}
+					}
+					if ep, en, ok := g.anyEdge(); ok && r.Intn(2) == 0 {
+						g.add("edge-points-large", sOp{Kind: "ep", Node: en, Parent: ep, Points: big})
+					} else {
+						g.add("node-points-large", sOp{Kind: "np", Node: n, Points: big})
+					}
+					continue
+				}
 				g.add("node-points", sOp{Kind: "np", Node: n, Points: g.batch(n, 4)})
 			}
 		case x < w[1]:
@@ -411,7 +425,7 @@ func storeGen(r *rand.Rand, id int, flavour string) *sScript {
 			break
 		}
 	}
-	s := &sScript{ID: id, Kind: flavour, Ops: g.ops}
+	s := &sScript{ID: id, Kind: flavour, Ops: g.ops, Kinds: g.kinds}
 	for _, n := range g.nodes[1:] {
 		s.Nodes = append(s.Nodes, n)
 	}
